@@ -312,6 +312,9 @@ def run(P, R, tier):
     c04.effects_guarded(P, R4, cl)
     c04.lookup_skips(P, R4, cl)
     release_recognised(P, R, cl)
+    # the timeout that voids the soft holds is the configured one (a raised or disabled timeout takes effect for new clients)
+    from . import c03
+    c03.timer(P, Remap(R, {'C03.MPT.1': 'C02.MPT.5'}, keys=('timer-interval-fresh', 'timer-created')))
     # a reply completes a client only if it was addressed to this instance: a stale OK on a reused id accepts the newcomer
     r_, sepch, idv, serv = c04.tag_tables(P, Remap(R, {}))
     c04.validated_return(P, Remap(R, {'C04.GRD.1': 'C02.GRD.5'}), r_, sepch, idv, serv)
